@@ -7,6 +7,13 @@ ROOT = os.path.dirname(os.path.dirname(os.path.abspath(__file__)))
 ALL = ["C%02d" % i for i in range(1, 20)]
 
 CHECKS = {
+    "C19": {
+        "spec": "specs/Translate.tla + TranslateTrace.tla",
+        "text": "TLC enumerates configuration trees (scalars, lists, mappings, typed mappings with working / raising / unresolvable factories, __args__ before or after the keyword items) to depth 2 (thorough: children from the full one-level family), checks the eight formulas of C19 on Translate.tla, and emits every tree; each tree (plus random trees to depth 5) is rendered with individually distinguishable fixture factories and translated by the real Translator, every second one twice from the same object; recorded factory calls, result and tokenised where-path are validated by TLC.",
+        "note": "finite acyclic trees without shared sub-objects; factories are fixture callables reached through generated dotted names; exceptions that are not Exception subclasses are out of scope.",
+        "design": "5/C19, 4.6",
+        "technique": "TLA+ model checking (TLC) + TLC-enumerated inputs executed on the real translator + trace validation",
+    },
     "C14": {
         "spec": "specs/Sections.tla + SectionsTrace.tla",
         "text": "TLC enumerates scenarios (installed plugins, before/after constraints incl. names of absent plugins, required flags, digest results, configuration key sets), checks the eight formulas of C14 on Sections.tla for every call order the constraints allow, and emits each scenario; each is executed on the real load_section_plugins + load_configuration with recording digests (discovery order and section content incl. None/falsy varied by seed) and the observed call log and outcome are validated by TLC.",
